@@ -295,7 +295,7 @@ func enumGrid(yield0 func(Case) bool) {
 		}
 		return true
 	}
-	for _, vs := range append(validatorSources(), emptyRejectingSources()...) {
+	for _, vs := range append(append(validatorSources(), emptyRejectingSources()...), selfUnpackingSources()...) {
 		for _, pl := range append(placements(), ifacePlacements()...) {
 			if k := vs.td.Shape().Kind; pl.name == "target T" && k != "map" && k != "slice" {
 				continue
@@ -321,7 +321,10 @@ func enumGrid(yield0 func(Case) bool) {
 			case "list", "array":
 				pres = []preCase{{"zero", nil}, {"[good good]", tvS(vs.good, vs.good)}, {"[good bad]", tvS(vs.good, vs.bad)}, {"[bad good]", tvS(vs.bad, vs.good)}}
 				cfgs = []cfgCase{{"absent", nil}, {"nil", gen.Nil()}, {"[good good]", gen.List(vs.goodCfg, vs.goodCfg)}, {"[good bad]", gen.List(vs.goodCfg, vs.badCfg)}, {"[bad good]", gen.List(vs.badCfg, vs.goodCfg)}}
+				// explicit null elements: a null stands for the zero value of the element type
+				cfgs = append(cfgs, cfgCase{"[good null]", gen.List(vs.goodCfg, gen.Nil())}, cfgCase{"[null good]", gen.List(gen.Nil(), vs.goodCfg)})
 				if pl.coll == "list" {
+					cfgs = append(cfgs, cfgCase{"[null]", gen.List(gen.Nil())})
 					cfgs = append(cfgs, cfgCase{"[]", gen.List()}, cfgCase{"[good]", gen.List(vs.goodCfg)}, cfgCase{"[bad]", gen.List(vs.badCfg)},
 						cfgCase{"[good good good]", gen.List(vs.goodCfg, vs.goodCfg, vs.goodCfg)})
 				}
@@ -329,7 +332,8 @@ func enumGrid(yield0 func(Case) bool) {
 				m := func(a, b *gen.TV) *gen.TV { return &gen.TV{Keys: []string{"j", "k"}, Elems: []*gen.TV{a, b}} }
 				pres = []preCase{{"zero", nil}, {"{j:good k:good}", m(vs.good, vs.good)}, {"{j:good k:bad}", m(vs.good, vs.bad)}, {"{}", &gen.TV{Keys: []string{}, Elems: []*gen.TV{}}}}
 				cfgs = []cfgCase{{"absent", nil}, {"nil", gen.Nil()}, {"{}", gen.Obj()}, {"{j:good}", objOf("j", vs.goodCfg)}, {"{k:good}", objOf("k", vs.goodCfg)},
-					{"{k:bad}", objOf("k", vs.badCfg)}, {"{n:good}", objOf("n", vs.goodCfg)}, {"{n:bad}", objOf("n", vs.badCfg)}, {"{j:bad k:good}", objOf("j", vs.badCfg, "k", vs.goodCfg)}}
+					{"{k:bad}", objOf("k", vs.badCfg)}, {"{n:good}", objOf("n", vs.goodCfg)}, {"{n:bad}", objOf("n", vs.badCfg)}, {"{j:bad k:good}", objOf("j", vs.badCfg, "k", vs.goodCfg)},
+					{"{k:null}", objOf("k", gen.Nil())}, {"{n:null}", objOf("n", gen.Nil())}, {"{j:good n:null}", objOf("j", vs.goodCfg, "n", gen.Nil())}}
 			}
 			for _, p := range pres {
 				if (p.tv == nil && p.name != "zero") || (p.tv != nil && hasNilElem(p.tv)) {
@@ -432,7 +436,7 @@ func hasNilVal(t *gen.Tree) bool {
 
 var subGrid = runlog.Register(&runlog.Sub[Case]{
 	Name: "placement-grid",
-	Rule: "deterministic cross product: 88 validator sources (12 of them for named slices / maps whose Validate() - value and pointer receiver - rejects the empty collection, once with the allocated empty collection and once with the NIL collection as the invalid pre-filled value (the zero pre-fill state of every placement is the nil collection too), for plain structs that hold such a list / map left nil or allocated empty, and for a struct whose InitDefaults installs a pointer to a nil list; further: each documented tag on each kind it is defined for, incl. duration parameters in unit syntax and as whole, fractional and negative numbers of seconds, integer parameters in hexadecimal and octal, spelt with blanks, and beyond 2^53, tags on pointers, regexps and collections of structs; Validate() with value receiver and with pointer receiver on each of: struct, named int, uint, float, string, bool, slice, array, map (pointer receiver also on an int64 derived from time.Duration); InitDefaults on named string / uint / float / bool and on a struct with valid or invalid defaults and either receiver of Validate(); structs and a map whose InitDefaults installs a list / array / map with one element rejected by the element's pointer-receiver Validate(); InitDefaults types whose defaults are valid or invalid, among them 12 whose InitDefaults installs one invalid map entry / list element / pointee / field that the 'good' setting overrides and the 'bad' setting leaves in place next to another key, and 6 whose InitDefaults stores ONE object at two places whose validators differ - one *int in two fields with different bounds, as a list element and in a tagged field, one *Duration as a map entry and in a tagged field, one *float64 behind a further pointer and in a tagged field, one empty slice / one empty map in two fields the second of which is required: the second place rejects the shared default, the 'good' setting overrides that place, the 'bad' one the other place; required / nonzero tags on inline slices, arrays, named slices and maps - the inline map sources only while D55 is not open; nonzero, required and min on a field of type interface{} holding generic data - only while D61 is not open) x 39 placements (direct, *T, **T, nested, pointer to nested, inline struct, []T, [2]T, map[string]T, []*T, map[string]*T, *[]T, *map[string]T, *[2]T, [][]T; inline []T, inline [2]T, inline map[string]T, squash []T, pointer to a struct with inline []T; the Unpack target itself being map[string]T, []T, [2]T or, for map and list sources, T; and 15 placements through an interface, pre-filled values only: interface{} holding T, *T, **T, []T, map[string]T, map[string]interface{} holding *T, or a pointer to a struct with an interface{} field holding T; []interface{} holding T or *T, [2]interface{} holding *T, map[string]interface{} holding T or *T, inline map[string]interface{} holding *T, the targets map[string]interface{} holding T and []interface{} holding *T - the twin holds the twin value in the interface; a rejecting Validate() directly in an interface is constructed away while D59 is open, a setting for a struct / array held by value while D60 is open) x pre-filled value (zero / valid / invalid; for collections two elements with the invalid one first or last) x configuration (absent, nil, valid, invalid, empty container, partial mention of a collection, another key) x delivery (literal / whole setting through ${r0}; literal only for collection targets) x, for a pre-filled list placement with a non-empty literal list setting, the global list policy (none, replace, append, prepend, replace arrays only); same oracle as the random search. Non-trivial and distinct as there. The enumeration is complete for this finite product.",
+	Rule: "deterministic cross product: 105 validator sources (17 of them for named primitive types whose Validate() rejects the zero value - int, string, uint, float, bool, both receivers - and for types that unpack themselves through a pointer-receiver IntUnpacker / UintUnpacker / FloatUnpacker / StringUnpacker / BoolUnpacker / generic Unpacker / ConfigUnpacker (struct) method and have a rejecting Validate(), plus min, required, nonzero and max tags on fields of such types and on a pointer to one (the latter only while N-C04-1 is not open); for every list, array and map placement the configurations also hold an EXPLICIT NULL element or entry - [good null], [null good], [null], {k:null}, {n:null}, {j:good n:null} - which stands for the zero value of the element type; 12 of them for named slices / maps whose Validate() - value and pointer receiver - rejects the empty collection, once with the allocated empty collection and once with the NIL collection as the invalid pre-filled value (the zero pre-fill state of every placement is the nil collection too), for plain structs that hold such a list / map left nil or allocated empty, and for a struct whose InitDefaults installs a pointer to a nil list; further: each documented tag on each kind it is defined for, incl. duration parameters in unit syntax and as whole, fractional and negative numbers of seconds, integer parameters in hexadecimal and octal, spelt with blanks, and beyond 2^53, tags on pointers, regexps and collections of structs; Validate() with value receiver and with pointer receiver on each of: struct, named int, uint, float, string, bool, slice, array, map (pointer receiver also on an int64 derived from time.Duration); InitDefaults on named string / uint / float / bool and on a struct with valid or invalid defaults and either receiver of Validate(); structs and a map whose InitDefaults installs a list / array / map with one element rejected by the element's pointer-receiver Validate(); InitDefaults types whose defaults are valid or invalid, among them 12 whose InitDefaults installs one invalid map entry / list element / pointee / field that the 'good' setting overrides and the 'bad' setting leaves in place next to another key, and 6 whose InitDefaults stores ONE object at two places whose validators differ - one *int in two fields with different bounds, as a list element and in a tagged field, one *Duration as a map entry and in a tagged field, one *float64 behind a further pointer and in a tagged field, one empty slice / one empty map in two fields the second of which is required: the second place rejects the shared default, the 'good' setting overrides that place, the 'bad' one the other place; required / nonzero tags on inline slices, arrays, named slices and maps - the inline map sources only while D55 is not open; nonzero, required and min on a field of type interface{} holding generic data - only while D61 is not open) x 39 placements (direct, *T, **T, nested, pointer to nested, inline struct, []T, [2]T, map[string]T, []*T, map[string]*T, *[]T, *map[string]T, *[2]T, [][]T; inline []T, inline [2]T, inline map[string]T, squash []T, pointer to a struct with inline []T; the Unpack target itself being map[string]T, []T, [2]T or, for map and list sources, T; and 15 placements through an interface, pre-filled values only: interface{} holding T, *T, **T, []T, map[string]T, map[string]interface{} holding *T, or a pointer to a struct with an interface{} field holding T; []interface{} holding T or *T, [2]interface{} holding *T, map[string]interface{} holding T or *T, inline map[string]interface{} holding *T, the targets map[string]interface{} holding T and []interface{} holding *T - the twin holds the twin value in the interface; a rejecting Validate() directly in an interface is constructed away while D59 is open, a setting for a struct / array held by value while D60 is open) x pre-filled value (zero / valid / invalid; for collections two elements with the invalid one first or last) x configuration (absent, nil, valid, invalid, empty container, partial mention of a collection, another key) x delivery (literal / whole setting through ${r0}; literal only for collection targets) x, for a pre-filled list placement with a non-empty literal list setting, the global list policy (none, replace, append, prepend, replace arrays only); same oracle as the random search. Non-trivial and distinct as there. The enumeration is complete for this finite product.",
 	Enum: enumGrid,
 	Run:  runCase,
 })
